@@ -31,7 +31,12 @@ def drivers(tier):
     # "c09k": GENERATED translation units (C09's machinery) calling index::broadcast_shape once per container kind and per MIXED
     # pair of kinds — compile-time constants, clipped integers, std::array, static_vector (loose and tight), utl::vector, std::tuple,
     # utl::tuple, raw arrays, constexpr evaluation — which a run-time dispatching driver cannot express
-    return {"c06": [("c06.cpp", "ndebug", ()), ("c06.cpp", "asan", ("-DVD_LIGHT",))], "c09k": c09.drivers(tier)["c09"]}
+    out = {"c06": [("c06.cpp", "ndebug", ()), ("c06.cpp", "asan", ("-DVD_LIGHT",))]}
+    if not SKIP_GENERATED: out["c09k"] = c09.drivers(tier)["c09"]
+    return out
+
+
+SKIP_GENERATED = False      # set by C02, which borrows only the sanitizer-flavour stream of this property
 
 
 def model_for(dkey):
@@ -84,8 +89,9 @@ def gen_cases(rng, tier):
         k = rng.choice(["vec", "veci", "sv"])
         add("nary", "bshape3 S:%s %s %s %s" % (k, L(tr[0]), L(tr[1]), L(tr[2])))
         add("nary", "bshape4 %s %s %s %s" % (L(tr[0]), L(tr[1]), L(tr[2]), L(tr[3])))
-    for line in c09.gen_for(["bshape"], 48 if tier == "quick" else 200, rng, tier):
-        out.append(("kinds-generated", line, "c09k"))
+    if not SKIP_GENERATED:
+        for line in c09.gen_for(["bshape"], 48 if tier == "quick" else 200, rng, tier):
+            out.append(("kinds-generated", line, "c09k"))
     return out
 
 
